@@ -47,7 +47,7 @@ Qed.
 Theorem dense_face_on_face (fuel : nat) (a b c : P3) (s : R) (q : P3) :
   In q (@dense_face RNum fuel a b c s) -> in_tri a b c q.
 Proof.
-  unfold dense_face. destruct (_ && _ && _) eqn:Ec.
+  unfold dense_face. destruct (negb (has_normal a b c)); [intros []|]. destruct (_ && _ && _) eqn:Ec.
   - intros [<- | []]. apply centre_in_tri.
   - set (aa := (nabs (angle3 (sub3 b a) (sub3 c a)) - half_pi)%num). set (ab := (nabs (angle3 (sub3 a b) (sub3 c b)) - half_pi)%num).
     set (ac := (nabs (angle3 (sub3 a c) (sub3 b c)) - half_pi)%num).
